@@ -48,6 +48,10 @@ type Keyper struct {
 // announces (-1: every set has all keypers); the left-out keyper still knows the set.
 var LastSetExcludes = -1
 
+// GenesisExcludes is the index of a keyper that is not part of the genesis keyper set (it joins
+// with keyper set 1); -1: every keyper is in the genesis set.
+var GenesisExcludes = -1
+
 // RedialKeyper is the index of the keyper NewSim creates with Redial set (-1: none). Cases run one
 // at a time per worker process.
 var RedialKeyper = -1
@@ -78,6 +82,9 @@ func NewSimSets(ctx context.Context, seed uint64, n, t int, phaseLen int64, hone
 		members[i] = i
 		addrs = append(addrs, u.Addrs[i])
 	}
+	if GenesisExcludes >= 0 && GenesisExcludes < n {
+		members = append(append([]int{}, members[:GenesisExcludes]...), members[GenesisExcludes+1:]...)
+	}
 	g := smchain.Genesis{Keypers: members, Threshold: uint64(t), Fork: app.NewForkHeightsAllEnabled(), Validators: []abcitypes.ValidatorUpdate{smchain.ValUpdate(u.ValKeys[n], 10)}}
 	s := &Sim{N: n, T: t, PhaseLen: phaseLen, U: u, Chain: smchain.NewChain(u, g), L1Block: 100}
 	for i := 0; i < n; i++ {
@@ -94,6 +101,14 @@ func NewSimSets(ctx context.Context, seed uint64, n, t int, phaseLen int64, hone
 		// the keyper sets as the chain observer would have synced them from the main chain
 		for cfgIdx := int64(0); cfgIdx <= int64(sets); cfgIdx++ {
 			setAddrs := addrs
+			if cfgIdx == 0 && GenesisExcludes >= 0 && GenesisExcludes < n {
+				setAddrs = nil
+				for j, a := range addrs {
+					if j != GenesisExcludes {
+						setAddrs = append(setAddrs, a)
+					}
+				}
+			}
 			if cfgIdx == int64(sets) && sets >= 2 && LastSetExcludes >= 0 {
 				setAddrs = nil
 				for j, a := range addrs {
